@@ -5029,10 +5029,16 @@ func (t *Terminal) Loop() error {
 						}
 						if t.hasPreviewWindow() && t.previewer.following.Enabled() {
 							t.previewer.offset = util.Max(t.previewer.offset, len(t.previewer.lines)-(t.pwindow.Height()-t.activePreviewOpts.headerLines))
-						} else if result.offset >= 0 {
+						} else {
+							// The offset is sent with the first result of a command only, and that
+							// result may have been replaced by a later one before it was seen here:
+							// whatever the offset is, it has to designate a line of this output
 							// (no line yet: not -1, the offset is not sent again with the lines)
+							if result.offset >= 0 {
+								t.previewer.offset = result.offset
+							}
 							headerLines := t.activePreviewOpts.headerLines
-							t.previewer.offset = util.Constrain(result.offset, headerLines, util.Max(headerLines, len(t.previewer.lines)-1))
+							t.previewer.offset = util.Constrain(t.previewer.offset, headerLines, util.Max(headerLines, len(t.previewer.lines)-1))
 						}
 						t.printPreview()
 					case reqPreviewRefresh:
